@@ -23,7 +23,9 @@ MINIMUM = {'R14.1': 2, 'R14.2': 2, 'R14.3': 2, 'R14.4': 1, 'R14.5': 4}
 ALSO = {'C09': {'R09.3': ('what is announced and what is removed is the same pair of paths',
                    'empty ')},
  'C11': {'R11.2': 'what is announced and what is removed derive from the same listing'},
- 'C15': {'R15.4': 'the payload delete is existence-tolerant without following links'},
+ 'C15': {'R15.2': 'what is announced is removed or reported: payload first, a failed removal '
+                  'is loud, the .trashinfo goes last',
+         'R15.4': 'the payload delete is existence-tolerant without following links'},
  'C18': {'R18.5': 'what the dry run announces is removed whatever it is (no link-following '
                   'test)'}}
 
